@@ -417,7 +417,7 @@ class Probe:
     self.expected, self.thm, self.info, self.expect_ok = expected, thm, info or {}, expect_ok
 
 
-def build_batch(r, n_funcs):
+def build_batch(r, n_funcs, fixed=False):
   pool = gen_pool(r)
   lines = ["from typing import Any, Callable, Generic, TypeVar, Union, overload"]
   lines += ["%s = TypeVar('%s')" % (t, t) for t in TVARS]
@@ -522,10 +522,15 @@ def build_batch(r, n_funcs):
               any(k0["template"][i] in c["template"] and
                   not (kps0[i] == ps[c["template"].index(k0["template"][i])]) for i in params_of(d))
           # exactly the proved theorems: attr_ground_read (ground constant / property) and attr_typevar_read (x: T)
-          thm = not shadow and not collide and (not d_mentions(d) or (m0[0] == "const" and d[0] == "param"))
+          if fixed:
+            # attr_typevar_read (variant after the fix) has no hypothesis on TypeVar names; it asks for base-class
+            # arguments that are type parameters or plain classes
+            thm = not shadow and (not d_mentions(d) or (m0[0] == "const" and d[0] == "param" and simple_chain))
+          else:
+            thm = not shadow and not collide and (not d_mentions(d) or (m0[0] == "const" and d[0] == "param"))
           info.update(shadow=shadow, collide=collide)
           probes.append(Probe("x%s_%s" % (gname, n), "A.%s.%s" % (gname, n), "attr",
-                              "read_emitted A 8 tbl %d %s %d" % (c["id"], ps_coq, nid(n)), exp, thm, info, True))
+                              "read_emitted A %%FIXED%% 8 tbl %d %s %d" % (c["id"], ps_coq, nid(n)), exp, thm, info, True))
         else:
           _, kind, sigs = m0
           shadowed = any(mm[0] == "const" and d_mentions(mm[1]) for _, _, mm in owners)
@@ -563,7 +568,7 @@ def build_batch(r, n_funcs):
                               {"cls": c, "member": n, "call": cl}, True))
     probes.append(Probe("E%d" % c["id"], None, "reexport-class", "(reexport_class A %d, true)" % c["id"],
                         ("gen", L.TYPE_ID, (("cls", c["id"]),)), True, {"cls": c, "form": r.choice(["from", "assign", "alias"])}, True))
-  return {"pool": pool, "stub": "\n".join(lines) + "\n", "probes": probes, "tbl": tbl, "arity": arity_map, "fdefs": fdefs,
+  return {"fixed": fixed, "pool": pool, "stub": "\n".join(lines) + "\n", "probes": probes, "tbl": tbl, "arity": arity_map, "fdefs": fdefs,
           "classes": classes, "funcs": funcs}
 
 
@@ -657,28 +662,32 @@ CALL_ERRORS = ("wrong-arg-types", "wrong-arg-count", "wrong-keyword-args", "miss
                "invalid-function-call")
 
 
+PRELUDE_V = ("From Coq Require Import List NArith Bool.\nFrom PV Require Import Conv.Model Conv.Decl.\n"
+             "Import ListNotations.\nOpen Scope N_scope.\n"
+             "Definition teq (x y : ty) := match ty_cmp x y with Eq => true | _ => false end.\n"
+             "Definition deq (a b : tydef) := match a, b with DConst x, DConst y | DAlias x, DAlias y => teq x y "
+             "| _, _ => false end.\n"
+             "Fixpoint idx (t : ty) (l : list ty) : option nat := match l with [] => None | x :: l' => "
+             "if teq x t then Some O else option_map S (idx t l') end.\n")
+N_EVALS = 5
+
+
 def header(batch, accm):
+  """the definitions of one batch (they live in a Coq Module of their own: all batches share ONE coqc start)."""
   ar = " ".join("| %d%%N => %d%%nat" % (c, n) for c, n in sorted(batch["arity"].items()))
-  h = ("From Coq Require Import List NArith Bool.\nFrom PV Require Import Conv.Model Conv.Decl.\n"
-       "Import ListNotations.\nOpen Scope N_scope.\n"
-       "Definition teq (x y : ty) := match ty_cmp x y with Eq => true | _ => false end.\n"
-       "Definition deq (a b : tydef) := match a, b with DConst x, DConst y | DAlias x, DAlias y => teq x y "
-       "| _, _ => false end.\n"
-       "Definition A (c : cid) : nat := match c with %s | _ => builtin_arity c end.\n" % ar)
+  h = "Definition A (c : cid) : nat := match c with %s | _ => builtin_arity c end.\n" % ar
   h += "Definition pool : list ty := [%s].\n" % "; ".join(L.to_coq(t) for t in batch["pool"])
   h += "Definition accm : list (list bool) := [%s].\n" % "; ".join(
       "[%s]" % "; ".join("true" if b else "false" for b in row) for row in accm)
-  h += ("Fixpoint idx (t : ty) (l : list ty) : option nat := match l with [] => None | x :: l' => "
-        "if teq x t then Some O else option_map S (idx t l') end.\n"
-        "Definition acc (a f : ty) : bool := match idx a pool, idx f pool with Some i, Some j => "
+  h += ("Definition acc (a f : ty) : bool := match idx a pool, idx f pool with Some i, Some j => "
         "nth j (nth i accm []) false | _, _ => false end.\n")
   h += "Definition tbl : ctable := %s.\n" % batch["tbl"]
   h += "".join(batch["fdefs"])
   return h
 
 
-def run_batch(res, r, bi, n_funcs, stats, report):
-  batch = build_batch(r, n_funcs)
+def run_batch(res, r, bi, n_funcs, stats, report, fixed=False, batch=None):
+  batch = batch or build_batch(r, n_funcs, fixed)
   wd = os.path.join(WORK, "b")
   t0 = time.time()
   try:
@@ -714,26 +723,31 @@ def run_batch(res, r, bi, n_funcs, stats, report):
       continue
     ok = not errs.get(p.name)
     cases.append((p, pr, po, ok))
-  body = header(batch, accm)
+  vthis, vother = ("true", "false") if batch["fixed"] else ("false", "true")
+  body = "Module B%d.\n" % bi + header(batch, accm)
   body += "Definition cases := [\n" + ";\n".join(
-      "(%s, (%s, %s), (%s, %s), %s)" % (p.coq, L.def_to_coq(pr), "true" if ok else "false", L.def_to_coq(po),
-                                      L.to_coq(p.expected) if p.expected is not None else "TError",
-                                      "true" if p.thm else "false")
+      "(%s, %s, (%s, %s), (%s, %s), %s)" % (p.coq.replace("%FIXED%", vthis), p.coq.replace("%FIXED%", vother),
+                                          L.def_to_coq(pr), "true" if ok else "false", L.def_to_coq(po),
+                                          L.to_coq(p.expected) if p.expected is not None else "TError",
+                                          "true" if p.thm else "false")
       for p, pr, po, ok in cases) + "].\n"
-  # 1 model = real (pre-Optimize definition and accepted flag); 2 wf_top of the expected type; 3 oracle on the real
-  # final stub; 4 theorem instance: model's emitted type = expected
-  body += ("Eval vm_compute in map (fun c => match c with (m, (pr, ok), _, _) => deq (fst m) pr && Bool.eqb (snd m) ok end) cases.\n"
-           "Eval vm_compute in map (fun c => match c with (_, _, (_, e), _) => wf_top A e end) cases.\n"
-           "Eval vm_compute in map (fun c => match c with (_, _, (po, e), _) => teq (canon (def_ty po)) (canon e) end) cases.\n"
-           "Eval vm_compute in map (fun c => match c with (m, _, (_, e), _) => teq (canon (def_ty (fst m))) (canon e) && snd m end) cases.\n")
+  # 1 model (the variant the tree was probed to implement) = real (pre-Optimize definition and accepted flag);
+  # 2 wf_top of the expected type; 3 oracle on the real final stub; 4 theorem instance: model's emitted type = expected;
+  # 5 the OTHER variant of the model = real (which cases separate the two variants)
+  body += ("Eval vm_compute in map (fun c => match c with (m, _, (pr, ok), _, _) => deq (fst m) pr && Bool.eqb (snd m) ok end) cases.\n"
+           "Eval vm_compute in map (fun c => match c with (_, _, _, (_, e), _) => wf_top A e end) cases.\n"
+           "Eval vm_compute in map (fun c => match c with (_, _, _, (po, e), _) => teq (canon (def_ty po)) (canon e) end) cases.\n"
+           "Eval vm_compute in map (fun c => match c with (m, _, _, (_, e), _) => teq (canon (def_ty (fst m))) (canon e) && snd m end) cases.\n"
+           "Eval vm_compute in map (fun c => match c with (_, m2, (pr, ok), _, _) => deq (fst m2) pr && Bool.eqb (snd m2) ok end) cases.\n")
+  body += "End B%d.\n" % bi
   return batch, cases, body, errs, fsame, src
 
 
-def classify(p, ok_real, errs):
+def classify(p, ok_real, errs, fixed=False):
   i = p.info
   if p.kind == "attr":
-    if i.get("collide"):
-      return KNOWN_COLLISION
+    if i.get("collide") and not fixed:
+      return KNOWN_COLLISION           # on a tree with the fix a collision that still fails is an unlisted violation
     if i.get("shadow"):
       return KNOWN_OVERRIDE
   if p.kind in ("call", "mcall") and i.get("amb") and i.get("nsig", 1) > 1:
@@ -799,38 +813,127 @@ def fixed_findings(res, report):
   return n
 
 
+COLLISION_STUB = """from typing import Generic, TypeVar
+T = TypeVar('T')
+S = TypeVar('S')
+class C4(Generic[T, S]):
+    m0: T
+class C5(C4[int, T], Generic[T]): ...
+g0: C5[bytes]
+"""
+COLLISION_SRC = "import A\ny0 = A.g0.m0\n"
+
+
+def collision_batch(fixed):
+  """the collision witness as a batch of model cases (it separates the two variants of the model on every run):
+  m0: T is resolved by _filter_var (short / full name), m1: list[T] by output.py (full name in both variants)."""
+  pool = [("cls", 10)]
+  c4 = {"id": L.USER_BASE + 4, "template": ["T", "S"], "base": None,
+        "members": [("m0", ("const", P(0))), ("m1", ("const", ("dgen", 6, (P(0),))))]}
+  c5 = {"id": L.USER_BASE + 5, "template": ["T"], "base": (c4["id"], (G(("cls", 10)), P(0))), "members": []}
+  classes = [c4, c5]
+  lines = ["from typing import Any, Callable, Generic, TypeVar, Union, overload"] + ["%s = TypeVar('%s')" % (t, t) for t in TVARS]
+  lines += [class_text(c4), class_text(c5), "p0: int", "def q0(a: int) -> int: ...", "g0: C5[bytes]"]
+  ps = [("cls", 14)]
+  owners0 = [(c4, [("cls", 10), ("cls", 14)], ("const", P(0)))]
+  probes = [Probe("acc_0_0", "A.q0(A.p0)", "acc", None),
+            Probe("xg0_m0", "A.g0.m0", "attr", "read_emitted A %%FIXED%% 8 tbl %d [(TClass 14)] %d" % (c5["id"], nid("m0")),
+                  ("cls", 10), bool(fixed), {"cls": c5, "ps": ps, "member": "m0", "owners": owners0, "collide": True, "shadow": False}, True),
+            Probe("xg0_m1", "A.g0.m1", "attr", "read_emitted A %%FIXED%% 8 tbl %d [(TClass 14)] %d" % (c5["id"], nid("m1")),
+                  ("gen", 6, (("cls", 10),)), False, {"cls": c5, "ps": ps, "member": "m1", "collide": False, "shadow": False}, True)]
+  return {"fixed": fixed, "pool": pool, "stub": "\n".join(lines) + "\n", "probes": probes,
+          "tbl": "[%s]" % "; ".join(class_coq(c) for c in classes), "arity": {c["id"]: len(c["template"]) for c in classes},
+          "fdefs": [], "classes": classes, "funcs": []}
+
+
+def probe_variant(res, report):
+  """Which variant of attribute._filter_var does the tree implement?  The collision witness of
+  Props/C06.v (attr_typevar_read_before_fix_refuted / ex_collision_fixed) is run on the real code:
+  bytes -> resolution by short name (before fixes/C06-filter-var-full-name), int -> by full name (after).
+  Returns True (fixed), False (old) or None (neither answer)."""
+  from pytype import config, io
+  wd = os.path.join(WORK, "variant")
+  shutil.rmtree(wd, ignore_errors=True)
+  os.makedirs(wd)
+  open(os.path.join(wd, "A.pyi"), "w").write(COLLISION_STUB)
+  ret = io.generate_pyi_ast(COLLISION_SRC, config.Options.create(python_version=(3, 12), pythonpath=wd, module_name="B"))
+  got = L.defs_of(ret.ast, {"y0"}).get("y0")
+  errs = [(e.name, e.line) for e in ret.context.errorlog]
+  res.extra["decl_collision_witness_reads"] = got and (got[0], L.to_text(got[1]) if got[0] in ("const", "alias") else got[1])
+  if got == ("const", ("cls", 10)) and not errs:
+    return True
+  if got == ("const", ("cls", 14)) and not errs:
+    report(res, KNOWN_COLLISION,
+           "`class C4(Generic[T, S]): m0: T; class C5(C4[int, T], Generic[T]); g0: C5[bytes]`: `A.g0.m0` is declared int and "
+           "read downstream as bytes (attribute._filter_var resolves the type parameter by its short name)",
+           {"kind": "decl", "stub": COLLISION_STUB, "src": COLLISION_SRC, "names": ["y0"],
+            "expect": {"y0": ["cls", 10]}})
+    return False
+  return None
+
+
 def leg(res, r, n_batches, n_funcs, report):
   os.makedirs(WORK, exist_ok=True)
   stats = {}
   built = []
   t0 = time.time()
+  fixed = probe_variant(res, report)
+  neither = False
+  res.extra["decl_filter_var_variant"] = {True: "full name (with fixes/C06-filter-var-full-name)",
+                                          False: "short name (before the fix)", None: "neither"}[fixed]
+  res.obligation("variant:attribute._filter_var-resolves-by-short-or-full-name", fixed is not None,
+                 "the collision witness is read as %r: neither int (after the fix) nor bytes (before)" %
+                 (res.extra.get("decl_collision_witness_reads"),))
+  if fixed is None:
+    report(res, "decl-type-not-preserved:attr", "the collision witness `A.g0.m0` (declared int) is read as %r" %
+           (res.extra.get("decl_collision_witness_reads"),),
+           {"kind": "decl", "stub": COLLISION_STUB, "src": COLLISION_SRC, "names": ["y0"], "expect": {"y0": ["cls", 10]}})
+    fixed = False
+    neither = True
+  b = run_batch(res, r, 1000, n_funcs, stats, report, fixed, batch=collision_batch(fixed))
+  if b:
+    built.append((1000,) + b)
   for bi in range(n_batches):
-    b = run_batch(res, r, bi, n_funcs, stats, report)
+    b = run_batch(res, r, bi, n_funcs, stats, report, fixed)
     if b:
-      built.append(b)
+      built.append((bi,) + b)
   impl_s = time.time() - t0
   t1 = time.time()
-  outs = common.run_cases_parallel([("c06_decl_%d" % i, b[2]) for i, b in enumerate(built)])
+  # ONE coqc start for all batches (each batch is a Module), split only when there are many (thorough tier)
+  PER_FILE = 10
+  groups = [built[k:k + PER_FILE] for k in range(0, len(built), PER_FILE)]
+  outs = common.run_cases_parallel([("c06_decl_%d" % gi, PRELUDE_V + "".join(b[3] for b in g)) for gi, g in enumerate(groups)])
   model_s = time.time() - t1
-  n_cases = n_mism = n_oracle = n_thm = n_thm_used = 0
+  n_cases = n_mism = n_oracle = n_thm = n_thm_used = n_sep = n_other_mism = 0
   kinds = {}
   known = {}
-  for i, (batch, cases, body, errs, fsame, src) in enumerate(built):
-    ok, out = outs["c06_decl_%d" % i]
+  per_batch_terms = {}
+  for gi, g in enumerate(groups):
+    ok, out = outs["c06_decl_%d" % gi]
     terms = common.parse_coq_eval(out) if ok else []
-    if not ok or len(terms) != 4:
-      res.obligation("model-run:c06_decl_%d" % i, False, out[-1500:])
+    if not ok or len(terms) != N_EVALS * len(g):
+      res.obligation("model-run:c06_decl_%d" % gi, False, out[-1500:])
+      continue
+    for k, b in enumerate(g):
+      per_batch_terms[b[0]] = terms[N_EVALS * k:N_EVALS * (k + 1)]
+  for (i, batch, cases, body, errs, fsame, src) in built:
+    terms = per_batch_terms.get(i)
+    if terms is None:
       continue
     cols = [[b.strip() == "true" for b in t.strip().strip("[]").split(";") if b.strip()] for t in terms]
     if not all(len(c) == len(cases) for c in cols):
-      res.obligation("model-run:c06_decl_%d" % i, False, "result length mismatch")
+      res.obligation("model-run:c06_decl_batch_%d" % i, False, "result length mismatch")
       continue
-    for (p, pr, po, okr), same, wf, orc, thm in zip(cases, *cols):
+    for (p, pr, po, okr), same, wf, orc, thm, same_other in zip(cases, *cols):
+      n_sep += same != same_other
+      n_other_mism += not same_other
       n_cases += 1
       kinds[p.kind] = kinds.get(p.kind, 0) + 1
       res.count(("decl", p.kind, L.shape(po[1], 1), okr) if p.kind != "acc" else None)
       replay = {"kind": "decl", "stub": batch["stub"], "src": "import A\n%s = %s\n" % (p.name, p.expr) if p.expr else src,
                 "names": [p.name]}
+      if p.expected is not None and p.expr:
+        replay["expect"] = {p.name: p.expected}
       if not same:
         n_mism += 1
         if n_mism <= 3:
@@ -841,7 +944,7 @@ def leg(res, r, n_batches, n_funcs, report):
       if p.expected is not None and in_opt_domain(p.expected):
         bad = (wf and not orc) or (p.expect_ok and not okr)
         if bad:
-          fp = classify(p, okr, errs)
+          fp = classify(p, okr, errs, fixed or neither)     # the listed finding is the OLD variant's only
           what = "`%s`: declared %s, downstream stub has `%s %s`%s" % (
               p.expr or ("re-export of " + L.cls_name(p.info["cls"]["id"])), L.to_text(p.expected), po[0], L.to_text(po[1]),
               "" if okr else " and reports %r" % (errs.get(p.name),))
@@ -869,9 +972,14 @@ def leg(res, r, n_batches, n_funcs, report):
                  {"kind": "decl", "stub": batch["stub"], "src": "from A import %s as %s\n" % (p.info["fname"], p.name), "names": [p.name]})
   n_fixed = fixed_findings(res, report)
   res.obligation("correspondence:decl-model-vs-convert/output", n_mism == 0 and not stats.get("crash"),
-                 "%d of %d declaration probes disagree; %d crashes" % (n_mism, n_cases, stats.get("crash", 0)))
+                 "%d of %d declaration probes disagree with the model variant fixed=%s the tree was probed to implement "
+                 "(the other variant disagrees on %d); %d crashes" % (n_mism, n_cases, fixed, n_other_mism, stats.get("crash", 0)))
   res.obligation("correspondence:decl-translatable", stats.get("unreadable", 0) <= max(3, n_cases // 40),
                  "%d probes could not be read back: %r" % (stats.get("unreadable", 0), stats.get("unreadable_examples", [])[:3]))
+  res.obligation("decl-cases-separate-the-two-variants", n_sep > 0,
+                 "%d probes on which the models with fixed=false and fixed=true differ" % n_sep)
+  res.extra["decl_probes_on_which_the_two_variants_differ"] = n_sep
+  res.extra["decl_other_variant_mismatches"] = n_other_mism
   res.extra["decl_batches"] = len(built)
   res.extra["decl_probes_compared"] = n_cases
   res.extra["decl_probe_kinds"] = kinds
@@ -882,16 +990,33 @@ def leg(res, r, n_batches, n_funcs, report):
   res.extra["decl_model_s"] = round(model_s, 1)
 
 
+def _tuple_ify(x):
+  return tuple(_tuple_ify(y) for y in x) if isinstance(x, (list, tuple)) else x
+
+
 def replay(rep, workdir):
-  """re-runs a stored declaration replay on the implementation; prints B's stub and errors."""
+  """re-runs a stored declaration replay on the implementation; prints B's stub and errors; returns
+  (stub, errors, still_failing)."""
   from pytype import config, io
   shutil.rmtree(workdir, ignore_errors=True)
   os.makedirs(workdir)
   open(os.path.join(workdir, "A.pyi"), "w").write(rep["stub"])
-  ret, pyi = io.generate_pyi(rep["src"], config.Options.create(python_version=(3, 12), pythonpath=workdir, module_name="B"))
+  ret = io.generate_pyi_ast(rep["src"], config.Options.create(python_version=(3, 12), pythonpath=workdir, module_name="B"))
+  from pytype.pytd import pytd_utils
+  pyi = pytd_utils.Print(ret.ast)
   print("--- upstream stub\n" + rep["stub"])
   print("--- downstream source\n" + rep["src"])
   print("--- downstream stub\n" + pyi)
   errs = [(e.name, e.line, str(e.message)[:200]) for e in ret.context.errorlog]
   print("--- downstream errors:", errs)
-  return pyi, errs
+  bad = bool(errs) and not rep.get("expect")
+  got = L.defs_of(ret.ast, set(rep.get("expect", {})))
+  for name, want in rep.get("expect", {}).items():
+    want = _tuple_ify(want)
+    g = got.get(name)
+    gt = None if not g or g[0] not in ("const", "alias") else (g[1] if g[0] == "const" else ("gen", L.TYPE_ID, (g[1],)))
+    same = gt is not None and L.py_canon(gt) == L.py_canon(want)
+    print("--- %s: declared %s, downstream %s -> %s" % (name, L.to_text(want), g and (g[0], L.to_text(g[1]) if gt is not None else g[1]),
+                                                       "same type" if same else "DIFFERENT"))
+    bad = bad or not same
+  return pyi, errs, bad
